@@ -62,6 +62,10 @@ checks = {
  "C09": dict(cat="exploration", tech="differential round-trip monitor: every encoding of systems / keys / proofs written, read back from a stream with trailing garbage, re-encoded; decoded systems solved against originals (C06 monitor on); proofs cross-verified over the {original, decoded} system x pk x vk cube",
    text="3/7 curves + tinyfield/babybear/koalabear systems: generated circuits with commitments, lookup/range-check/hint scenarios, random programs, gadget systems (emulated arithmetic, hashes, GKR metadata, debug info/logs); WriteTo / WriteRawTo / WriteDump+ReadDump / UnsafeReadFrom; ~3.5k cross verifications per quick run. Behavioural equality, not DeepEqual.",
    note="witness encodings covered by C07; hostile bytes by C08; small-field systems are decoded into zero-value system objects (as groth16.NewCS does for curves)", ref="§3 C09"),
+
+ "C12": dict(cat="exploration", tech="differential monitor (random operation chains over emulated.Field mirrored in big.Int, every intermediate tapped through a hint; test engine + compiled r1cs/scs) + adversarial-execution monitor (lying mulHint/polyMvHint/Div/Inverse/Sqrt/subPadding hints incl. the best-effort carry-solved cheat; commitment = hash)",
+   text="22 parameter sets (13 built-in, 9 custom incl. one limb, non-prime, wider than native), chains of 10-200 operations driving overflow to the reduction thresholds, boundary chains, variable-modulus ops; ~4.5k must-reject cheats per quick run. Built by a sub-agent (7/7 mutants caught), found 10 defect classes: 8 repaired by fix commits, 2 open known findings (carry limbs not range checked = soundness, confirmed with verifying Groth16/PLONK proofs of a false product).",
+   note="define-time panics are counted as robustness observations, not violations; chains route around repaired defect sites only where still needed", ref="§3 C12"),
 }
 pending = {}
 for i in range(1,21):
